@@ -100,6 +100,10 @@ fn main() -> Result<()> {
             let tag = arg_value(&args, "--tag").unwrap_or("s".into());
             r#gen::ledger(seed * 1000 + i, &format!("{tag}x{i}"), &cfg, &flags, &chain)
           }
+          "provenance" => {
+            let tag = arg_value(&args, "--tag").unwrap_or("q".into());
+            r#gen::provenance(seed * 1000 + i, &format!("{tag}x{i}"), blocks, &flags)
+          }
           "signet" => {
             let tag = arg_value(&args, "--tag").unwrap_or("n".into());
             r#gen::signet_fetch(seed * 1000 + i, &format!("{tag}x{i}"), blocks, &flags)
